@@ -3,7 +3,7 @@ back with the library; log both projections and the abstract syntax."""
 from prov.model import ProvDocument
 
 from project import proj_container, proj_ns
-from vocab import uri_segs
+from vocab import uri_segs, uri_text
 
 JSON_OPTS = {"plain": {}, "indent": {"indent": 2}, "sort": {"sort_keys": True},
              "ascii": {"ensure_ascii": False},
